@@ -55,6 +55,15 @@ Theorem C07_roundtrip_file_partial : forall c n,
 Proof. exact roundtrip_file. Qed.
 Print Assumptions C07_roundtrip_file_partial.
 
+(* ... repeatedly, for roots that are not a Macro / For themselves (workflows, function nodes; macros
+   may be nested inside).  For a Macro / For root the second save + load fails: C07_file_refuted_owner. *)
+Theorem C07_roundtrip_file_repeated_partial : forall k c n,
+  guards n -> is_linked (nkind n) = false ->
+  exists n', trips (S k) BFile (c, n) = Ok (mkC None (root_det c) false, n') /\
+             same (strip_root n) n' /\ no_own_conns n' /\ din (nkids n') = din (nkids n).
+Proof. exact roundtrip_file_repeated. Qed.
+Print Assumptions C07_roundtrip_file_repeated_partial.
+
 (* A child serialised on its own comes back without parent, siblings and outside connections. *)
 Theorem C07_child_alone_partial : forall p k ppath,
   guards p -> In k (nkids p) ->
@@ -71,6 +80,12 @@ Theorem C07_rerun_partial : forall k c n fuel,
   exists n', trips (S k) BPickle (c, n) = Ok (mkC None (root_det c) true, n') /\ exec fuel n' = exec fuel n.
 Proof. exact rerun_pickle. Qed.
 Print Assumptions C07_rerun_partial.
+
+Theorem C07_rerun_file_partial : forall c n fuel,
+  guards n -> cown c = true -> sig_canon_level (nkids n) = true ->
+  exists n', trips 1 BFile (c, n) = Ok (mkC None (root_det c) false, n') /\ exec fuel n' = exec fuel n.
+Proof. exact rerun_file. Qed.
+Print Assumptions C07_rerun_file_partial.
 
 (* ... and refuted without that guard: a.ran -> [b.run, c.run] executes a,b,c before and a,c,b after. *)
 Theorem C07_rerun_refuted :
